@@ -40,6 +40,10 @@ GInit ==
        \A pat \in {"roundrobin", "mixed"} :
          PrintT(<<"CASE", ToJson([what |-> "many", nfields |-> nf, pairs |-> n, pattern |-> pat,
                                    order |-> [i \in 1..n |-> FieldAt(pat, nf, i)]])>>)
+  \* documents with 1..3 values of the JSON field sharing a path: words per leaf, repeated or distinct tokens,
+  \* and whether a second path / an array under the path is present
+  /\ \A nv \in {1, 2, 3} : \A w \in {1, 2, 4} : \A rep \in BOOLEAN : \A arr \in BOOLEAN :
+       PrintT(<<"CASE", ToJson([what |-> "jsonvals", values |-> nv, words |-> w, repeated |-> rep, array |-> arr])>>)
 GNext == done' = TRUE /\ UNCHANGED ivars
 GSpec == GInit /\ [][GNext]_<<done, ivars>>
 =============================================================================
